@@ -83,8 +83,8 @@ If --internal is specified, then internal nodes are renamed;
 		var treechan <-chan tree.Trees
 		var namemap map[string]string = nil
 		var setregex, setreplace bool
-		setregex = cmd.Flags().Changed("regexp")
-		setreplace = cmd.Flags().Changed("replace")
+		setregex = renameRegex != "none"
+		setreplace = renameReplaceBy != "none"
 
 		if !(renameTips || renameInternalNodes) {
 			err = errors.New("You should rename at least internal nodes (--internal) or tips (--tips)")
